@@ -176,6 +176,10 @@ func tree(r *rand.Rand, dir string) (root string, files []string) {
 				lit := []string{"cmd-aaa", "cmd-bbb"}[pi]
 				f.Funcs = append(f.Funcs, gen.Func{Name: "Beacon", Text: "func Beacon(a int, b int) int {\n\treturn strings.Count(\"" + lit + "\", strconv.Itoa(a)) + b\n}\n"})
 			}
+			if fi == 0 && pi == 2 {
+				// a recurrence whose rendering is long enough to be replaced by a digest
+				f.Funcs = append(f.Funcs, gen.Func{Name: "Wide", Text: "func Wide(a int, b int) int {\n\tx := a&3 + 1\n\tm := b&3 + 1\n" + strings.Repeat("\tx = x + x*m\n", 8) + "\ts := 0\n\tfor i := x; i < x+4; i++ {\n\t\ts += i & 15\n\t}\n\treturn s\n}\n"})
+			}
 			if fi == 0 {
 				for k := 0; k < 5; k++ {
 					f.Funcs = append(f.Funcs, gen.Function(r, fmt.Sprintf("U%d_%d", pi, k), gen.SigII, 3+r.Intn(5)))
